@@ -29,7 +29,22 @@ def dag_stream(rng, n, overridable_every=0, start=0):
         prof = profiles[i % len(profiles)]
         ov = bool(overridable_every) and (i % overridable_every == 0)
         try:
-            c = G.gen_dag(rng, i, prof, overridable=ov, value_info=rng.choice(["all", "some", "none"]))
+            if i % 8 == 5:
+                # an old-opset model and its modern twin, in either order: the result must not depend on what the process
+                # optimized before (versioned reference implementations)
+                first = rng.random() < 0.5
+                primed = getattr(G, "_legacy_primed", False)
+                if not primed:
+                    # the first pair of a process: the modern model first, every operator kind in both
+                    first = True
+                    G._legacy_primed = True
+                pair = [G.gen_legacy(rng, i, modern=first, all_kinds=not primed), G.gen_legacy(rng, i, modern=not first, all_kinds=not primed)]
+                made += 1
+                yield pair[0]
+                c = pair[1]
+                c.history = [pair[0].model]      # optimized earlier in this process (for the replay)
+            else:
+                c = G.gen_dag(rng, i, prof, overridable=ov, value_info=rng.choice(["all", "some", "none"]))
         except Exception as e:  # a generator bug must not look like a finding
             yield ("generator-error", f"{type(e).__name__}: {e}")
             continue
@@ -145,6 +160,64 @@ def culprit(orig, opt):
     return ",".join(removed[:4]) + "->" + ",".join(added[:4])
 
 
+def shadowing(model):
+    """names defined in a subgraph that are also defined in an enclosing graph (illegal in ONNX)"""
+    res = []
+
+    def walk(g, outer):
+        local = {i.name for i in g.input} | {i.name for i in g.initializer} | {o for n in g.node for o in n.output if o}
+        for n in g.node:
+            for a in n.attribute:
+                if a.type == onnx.AttributeProto.GRAPH:
+                    inner = {i.name for i in a.g.input} | {i.name for i in a.g.initializer} | {o for nn in a.g.node for o in nn.output if o}
+                    res.extend(sorted(inner & (outer | local)))
+                    walk(a.g, outer | local)
+    walk(model.graph, set())
+    return res
+
+
+def displaced_initializer(model):
+    """node inputs (nested graphs included) that nothing defines although a value with the same base name (without a
+    _<n> suffix) is an initializer: the signature of an initializer displaced by a second registration under its name"""
+    defined = set()
+    inits = set()
+
+    def collect(g):
+        defined.update(i.name for i in g.input)
+        defined.update(i.name for i in g.initializer)
+        inits.update(i.name for i in g.initializer)
+        for n in g.node:
+            defined.update(n.output)
+            for a in n.attribute:
+                if a.type == onnx.AttributeProto.GRAPH:
+                    collect(a.g)
+    collect(model.graph)
+    res = []
+
+    def uses(g):
+        for n in g.node:
+            for i in n.input:
+                if i and i not in defined and re.sub(r"_\d+$", "", i) in inits:
+                    res.append(i)
+            for a in n.attribute:
+                if a.type == onnx.AttributeProto.GRAPH:
+                    uses(a.g)
+    uses(model.graph)
+    return res
+
+
+def known_structural_class(orig, opt):
+    """defects of the rewriter's node-replacement machinery (C07) as they surface in a whole-pipeline result"""
+    try:
+        if displaced_initializer(opt) and not displaced_initializer(orig):
+            return "rewrite:initializer-name-clash:displaced-initializer"
+        if shadowing(opt) and not shadowing(orig):
+            return "rewrite:fresh-name-shadows-enclosing-graph-value"
+    except Exception:
+        pass
+    return None
+
+
 def diff_kind(msg):
     if msg is None:
         return None
@@ -199,6 +272,8 @@ def prune_to_output(model, k):
 def replay_doc(case, entry, opts, as_ir, extra=None):
     d = {"ident": case.ident, "kind": case.kind, "features": case.features, "entry": entry, "opts": list(opts) if opts else None,
          "as_ir": as_ir, "model_b64": R.model_b64(case.model), "feeds": R.feeds_json(case.feeds)}
+    if getattr(case, "history", None):
+        d["history_models_b64"] = [R.model_b64(m) for m in case.history]
     if extra:
         d.update(extra)
     return d
@@ -286,8 +361,11 @@ def differential(ctx, case, base, plan, stats):
                 stats["ort-load-time-shape-inference-rejects-optimized(reference agrees)"] += 1
                 continue
         stage = attribute_stage(case, entry, opts, as_ir, failing)
+        structural = known_structural_class(case.model, m2) if kind == "optimized-model-fails" else None
         if "Required inputs" in str(detail) and case.overridable:
             key = "C03:initializer-input:default-removed"
+        elif structural is not None:
+            key = "C03:" + structural
         elif case.kind.startswith("lifted"):
             # the same node test is lifted in several ways: key on the operator under test
             op = next((f[3:] for f in case.features if f.startswith("op:")), "?")
@@ -415,6 +493,13 @@ def replay(doc):
     print("property", doc["property"], "key", doc["key"])
     print(onnx.printer.to_text(m)[:4000])
     opts = tuple(r["opts"]) if r.get("opts") else None
+    for hb in r.get("history_models_b64", []):
+        h = onnx.ModelProto()
+        h.ParseFromString(base64.b64decode(hb))
+        try:
+            R.apply_entry("optimize", h)          # what the process had optimized before
+        except Exception:
+            pass
     try:
         m2 = R.apply_entry(r["entry"], m, opts, r.get("as_ir", False))
     except Exception as e:
